@@ -894,13 +894,17 @@ class Interp:
         if r.status is None or ms.dead:
             return
         if box is None or box.noselect:
-            self.C("c17_select_missing")
-            if r.ok:
-                self.V("C17", "deleted_mailbox_selectable", mailbox=name, noselect=bool(box and box.noselect))
+            if self.compare:
+                self.C("c17_select_missing")
+                if r.ok:
+                    self.V("C17", "deleted_mailbox_selectable", mailbox=name, noselect=bool(box and box.noselect))
+            elif r.ok:
+                ms.selected = box
             return
         if not r.ok:
-            self.C("c17_selectable")
-            self.V("C17", "mailbox_unselectable", mailbox=name, reply=r.brief())
+            if self.compare:
+                self.C("c17_selectable")
+                self.V("C17", "mailbox_unselectable", mailbox=name, reply=r.brief())
             return
         ms.selected = box
         ms.readonly = bool(op.get("examine"))
@@ -1466,6 +1470,17 @@ class Interp:
         elif v == "LOGOUT":
             ms.dead = True
 
+    async def op_raw_in_idle(self, op):
+        """Send something other than DONE while idling (the server answers
+        with an untagged NO / a re-prompt and keeps idling)."""
+        sess, ms = self.sess(op)
+        if sess is None or ms.dead or not getattr(ms, "idling", False):
+            return
+        line = op["line"].encode("latin-1")
+        self.world.note("C>" + sess.sid, line)
+        sess._send_command(line)
+        await asyncio.sleep(0.2)
+
     async def op_logout(self, op):
         sess, ms = self.sess(op)
         if sess is None or ms.dead:
@@ -1484,7 +1499,10 @@ class Interp:
             old.close()
         await asyncio.sleep(0.01)
         if self.node is not None and self.node.alive():
-            self.connect(sid)
+            try:
+                self.connect(sid)
+            except ConnectionRefusedError:
+                pass
 
     async def op_drop(self, op):
         sess, ms = self.sess(op)
@@ -1527,6 +1545,8 @@ class Interp:
                 if int(now) > mt:
                     break
                 await asyncio.sleep(mt + 1 - now + 0.01)
+        if not os.path.isdir(path):
+            return  # deleted meanwhile
         keys = self.live_keys(box)
         nxt = (max(keys) if keys else 0) + 1
         toks = op.get("toks") or [self.new_tok() for _ in range(count)]
